@@ -35,6 +35,7 @@ def main():
         print(json.dumps(v, indent=1))
         return 1 if v.get("violated") else 0
     spec = PROPS[a.pid]
+    os.environ["VERIF_TIER_EFFECTIVE"] = a.tier
     run = driver.PropertyRun(a.pid, a.tier)
     exp_path = os.path.join(ROOT, "expected_obligations.json")
     expected_all = driver.load_json(exp_path, {})
